@@ -16,8 +16,9 @@ What is compio's (modelled branch by branch):
   pool thread sits in `waitpid`. Route B (linux.rs, feature `linux_pidfd`): pidfd wrapped in a
   `SharedFd`, a clone goes into `PollOnce`, after the completion the operation (and its clone) is
   dropped, `take()` succeeds iff the count is 1, then `wait`;
-* what the surrounding code keeps open: `Child::wait(self)` / `wait_with_output(self)` drop the
-  `stdin` field only when they return (plan `held`).
+* what the surrounding code keeps open: `Child::wait(self)` / `wait_with_output(self)` drop an untaken
+  `stdin` field before they wait (plan `held`; before the repair of F201 only when they returned: plan
+  `heldUnfixed`).
 
 What is the OS's (assumed, explored by the harness): a pipe is a bounded FIFO of capacity `cap`;
 `read` returns 1 ≤ k ≤ min(room, available) bytes or 0 at end of file (no writer left, pipe empty);
@@ -73,8 +74,11 @@ inductive Plan where
   /-- write everything and close, only then start reading -/
   | seq
   /-- `Child::wait(self)` / `wait_with_output(self)` with `stdin` still inside the `Child`:
-      the descriptor is closed when the call returns -/
+      like std, the call drops `stdin` first and only then waits (repaired code, /repo 61828f8) -/
   | held
+  /-- the same call before the repair (finding F201): the partially moved `self` was dropped when the
+      async fn returned, i.e. stdin was closed only after the wait had completed -/
+  | heldUnfixed
   deriving DecidableEq, Repr
 
 /-- `deps a b`: activity `a` starts only when `b` is done -/
@@ -86,7 +90,8 @@ def Plan.deps : Plan → Act → Act → Bool
   | .waitDrain, .Re, .Wt => true
   | .seq, .Ro, .W => true
   | .seq, .Re, .W => true
-  | .held, .W, .Wt => true
+  | .held, .Wt, .W => true
+  | .heldUnfixed, .W, .Wt => true
   | _, _, _ => false
 
 /-- program counter of the wait -/
@@ -460,6 +465,11 @@ def runCanon (c : Cfg) : Nat → St → St
     match next c s with
     | none => s
     | some s' => runCanon c n s'
+
+/-- What `wait` hands to the caller. `waitpid` on a child that something else in the process has already
+reaped fails with `ECHILD`: compio passes the error on (`none`), it never makes up a status. -/
+def waitOutcome (reapedElsewhere : Bool) (st : Status) : Option Status :=
+  if reapedElsewhere then none else some st
 
 /-- well-formed child program: block sizes are positive -/
 def wfScript : List CAct → Bool
